@@ -133,7 +133,7 @@ def ledger_clean(led, wd_cfg, expect_control_listener=True):
 
 
 class Scenario:
-    def __init__(self, name, script, users=None, tree=None, server_kwargs=None, backend="memory", spy_setup=None, net_setup=None, family=socket.AF_INET, task_salt=None):
+    def __init__(self, name, script, users=None, tree=None, server_kwargs=None, backend="memory", spy_setup=None, net_setup=None, family=socket.AF_INET, task_salt=None, world_setup=None):
         self.name = name
         import os
 
@@ -146,6 +146,7 @@ class Scenario:
         self.backend = backend
         self.spy_setup = spy_setup
         self.net_setup = net_setup
+        self.world_setup = world_setup
         self.family = family
 
 
@@ -159,6 +160,8 @@ async def _scenario(loop, sc, k, intervention, after=None):
         wd.set_tree(sc.tree)
         if sc.spy_setup:
             sc.spy_setup(spy, loop)
+        if getattr(sc, "world_setup", None):
+            sc.world_setup(wd)
         if sc.net_setup:
             sc.net_setup(wd.net, loop)
         ctl = Ctl(wd)
